@@ -20,7 +20,7 @@ FILTR = Func("filtr", [Dyn], Bool)
 for _kind in ("sections", "sources"):
     REG.contract(
         "nixio.util.find._find_%s" % _kind, assumed=True, props=[],
-        params={"with_%s" % _kind: Dyn, "filtr": FILTR, "limit": Int}, result=Dyn,
+        params={"with_%s" % _kind: Dyn, "filtr": FILTR, "limit": Int}, result=SeqOf(Obj("Entity")),
         note="breadth-first search (summary): exact order / completeness / depth semantics are covered only by the bounded "
              "stand-in C13/bounded/bfs, see there")
 
@@ -33,7 +33,7 @@ REG.spec_consts["MAXSIZE"] = VInt(2 ** 63 - 1)
 def finder(qn, cls, kind):
     callee = "_find_%s" % kind
     REG.contract(
-        qn, props=["C13"], params=dict(self=Obj(cls), filtr=FILTR, limit=Dyn), result=Dyn,
+        qn, props=["C13"], params=dict(self=Obj(cls), filtr=FILTR, limit=Dyn), result=SeqOf(Obj("Entity")),
         requires=[LIMIT_OK],
         ensures=[("find.start", "arg_of('%s', 'with_%s') == boxed(self)" % (callee, kind), "prop"),
                  # the depth limit reaches the search as given: None = unlimited, 0 = only the start level
